@@ -33,7 +33,8 @@ PROPS = {
     ),
     "C12": dict(
         verus=["glyf"],
-        not_decided="build_subset_font (glyf/loca/hmtx rebuild), CFF, outline and advance-width equality (need a font parser as oracle)",
+        standins=["fontsubset"],
+        not_decided="proved per function: component closure, glyph-index remapping, instruction stripping (result is the same glyph description with instructionLength 0 / WE_HAVE_INSTRUCTIONS cleared), glyf/loca assembly (every loca entry decodes to the real, even start offset of its glyph). Not proved: that these compose to 'same flattened outline' (needs a glyf renderer as spec: covered only by the bounded stand-in fontsubset, synthetic fonts with an independent glyf reader), hmtx/hhea/maxp/head rebuild and the table directory (stand-in only), cmap glyph selection; CFF subsetting and the charstring desubroutiniser have neither a contract nor a stand-in",
     ),
     "C04": dict(
         verus=["prevmerge"],
